@@ -474,6 +474,28 @@ class Interp(object):
             for v in test.values:
                 self.refine(v, state, True, fr)
             return
+        # `if s:` / `if s == 1:` on a small integer known to be one of a few values: the branch fixes the value, and with it every
+        # symbolic length that was computed from it before the branch (rows P - s ...)
+        nm, keep = None, None
+        if isinstance(test, ast.Name):
+            nm, keep = test.id, (lambda k: bool(k) == branch)
+        elif isinstance(test, ast.Compare) and len(test.ops) == 1 and isinstance(test.left, ast.Name) and isinstance(test.comparators[0], ast.Constant) \
+                and isinstance(test.comparators[0].value, int) and isinstance(test.ops[0], (ast.Eq, ast.NotEq)):
+            cv = test.comparators[0].value
+            nm, keep = test.left.id, (lambda k, cv=cv, eq=isinstance(test.ops[0], ast.Eq): ((k == cv) == eq) == branch)
+        if nm is not None:
+            cur = state.env.get(nm)
+            if cur is not None and isinstance(cur.note, tuple) and cur.note and cur.note[0] == "in":
+                left = [k for k in sorted(cur.note[1]) if keep(k)]
+                if len(left) == 1:
+                    k = left[0]
+                    atoms_ = cur.sym.atoms() if cur.sym is not None else []
+                    new = const_av(k).replace(tags=cur.tags)
+                    state.env[nm] = new
+                    if len(atoms_) == 1 and cur.sym == LinExpr(atoms_[0]):
+                        self._subst_sym(state, atoms_[0], k)
+            if isinstance(test, ast.Name):
+                return
         if isinstance(test, ast.Compare) and len(test.ops) == 1 and isinstance(test.left, ast.Name):
             op, right = test.ops[0], test.comparators[0]
             if isinstance(right, ast.Constant) and right.value == 0 and not isinstance(right.value, bool):
@@ -487,6 +509,24 @@ class Interp(object):
                 cur = state.env.get(test.left.id)
                 if cur is not None and is_none:
                     state.env[test.left.id] = const_av(None)
+
+    def _subst_sym(self, state, atom, k):
+        def fix(av):
+            ch = {}
+            if av.shape is not None and any(d is not None and atom in d.atoms() for d in av.shape):
+                ch["shape"] = tuple(d.subst(atom, k) if d is not None else None for d in av.shape)
+            if av.sym is not None and atom in av.sym.atoms():
+                ch["sym"] = av.sym.subst(atom, k)
+            if av.items is not None and any(i is not None for i in av.items):
+                its = tuple(fix(i) if i is not None else None for i in av.items)
+                if any(x is not y for x, y in zip(its, av.items)):
+                    ch["items"] = its
+            return av.replace(**ch) if ch else av
+        for name, av in list(state.env.items()):
+            state.env[name] = fix(av)
+        for o in state.heap.values():
+            for name, av in list(o.attrs.items()):
+                o.attrs[name] = fix(av)
 
     def st_For(self, st, fr):
         it = self.ev(st.iter, fr)
@@ -791,11 +831,17 @@ class Interp(object):
         """arr[idx] = v : the array is summarised by one abstract element."""
         alg = {}
         idx_atoms = idx.atoms() if idx is not None else set()
+        # np.empty / np.empty_like: the uninitialised content is nobody's value (a correct program writes before it reads), so the first
+        # store does not join with it; an np.empty array that is never written stays unknown
+        fresh_empty = "alloc:empty" in arr.tags and arr.kind == K_ARRAY
+        if fresh_empty:
+            arr = arr.replace(tags=(arr.tags - frozenset(["alloc:empty"])) | frozenset(["alloc:empty-written"]), sign=v.sign if
+                              v.kind in (K_SCALAR, K_BOOL, K_ARRAY) else S_ANY)
         for at in arr.atoms() | v.atoms() | idx_atoms:
             va = v.a(at)
             if idx is not None:
                 va = alg_weaken(va, idx.a(at))
-            alg[at] = alg_lub(arr.a(at), va)
+            alg[at] = alg_lub(ZERO if fresh_empty else arr.a(at), va)
         kind = arr.kind
         # placeholder arrays (np.ones_like / np.empty ...) that are overwritten completely: x[:-1] = ..; x[-1] = ..
         cov = None
@@ -839,6 +885,41 @@ class Interp(object):
             elif idx.kind == K_SCALAR and idx.has_const() and idx.const == 0 and v.has_const() and isinstance(v.const, (int, float)) and \
                     not isinstance(v.const, bool):
                 ap = ("ap", arr.parts[1], v.const, arr.parts[3])             # x[0] = c
+        if ap is None and isinstance(arr.parts, tuple) and arr.parts and arr.parts[0] == "pconst" and idx is not None:
+            k_, val_ = None, None
+            if idx.kind == K_SCALAR and idx.has_const() and isinstance(idx.const, int) and not isinstance(idx.const, bool) and idx.const >= 0:
+                k_ = idx.const
+                if v.has_const() and isinstance(v.const, (int, float)) and not isinstance(v.const, bool):
+                    val_ = v.const
+            elif idx.kind == K_SLICE and idx.items is not None and idx.items[2] is None and idx.items[0] is not None and \
+                    idx.items[1] is not None and idx.items[0].has_const() and idx.items[1].has_const() and \
+                    isinstance(idx.items[0].const, int) and idx.items[0].const >= 0 and idx.items[1].const == idx.items[0].const + 1:
+                k_ = idx.items[0].const
+                if isinstance(v.parts, tuple) and v.parts and v.parts[0] == "elems" and len(v.parts[1]) == 1:
+                    val_ = v.parts[1][0]
+                elif v.shape == () and v.has_const() and isinstance(v.const, (int, float)) and not isinstance(v.const, bool):
+                    val_ = v.const
+            if k_ is not None and val_ is not None:
+                ld = dict(arr.parts[2])
+                ld[k_] = val_
+                ap = ("pconst", arr.parts[1], tuple(sorted(ld.items())))
+        # an uninitialised 1-D buffer filled piece by piece: x[0] = a; x[1:-1] = middle; x[-1] = b  (each region once, nothing else) is
+        # the assembly [a, middle..., b] that np.insert / np.concatenate would build
+        if ap is None and arr.kind == K_ARRAY and arr.shape is not None and len(arr.shape) == 1 and idx is not None and \
+                (fresh_empty or (isinstance(arr.parts, tuple) and arr.parts and arr.parts[0] == "build")):
+            region = None
+            if idx.kind == K_SCALAR and idx.has_const() and idx.const in (0, -1) and not isinstance(idx.const, bool):
+                region = "first" if idx.const == 0 else "last"
+            elif idx.kind == K_SLICE and idx.items is not None and idx.items[2] is None and idx.items[0] is not None and \
+                    idx.items[1] is not None and idx.items[0].has_const() and idx.items[0].const == 1 and idx.items[1].has_const() and \
+                    idx.items[1].const == -1:
+                region = "mid"
+            cur = dict(arr.parts[1]) if not fresh_empty else {}
+            if region is not None and region not in cur:
+                d = self.api._part_desc(v) if region != "mid" else (("arr", v.tags) if v.kind == K_ARRAY else None)
+                if d is not None:
+                    cur[region] = d
+                    ap = (cur["first"], cur["mid"], cur["last"]) if len(cur) == 3 else ("build", tuple(sorted(cur.items())))
         return arr.replace(note=cov if cov is not None else (arr.note if not (isinstance(arr.note, tuple) and arr.note and arr.note[0] == "init") else None),
                            parts=ap,
                            alg=alg, sign=sign_join(arr.sign, v.sign), mono=frozenset(), f0=keep_f0, const=_NOCONST,
@@ -1025,6 +1106,8 @@ class Interp(object):
                 return v
         if base.kind in (K_ARRAY, K_SCALAR, K_LIST, K_STR, K_DICT, K_TUPLE, K_TOP, K_BOOL, K_OBJ):
             return AV(kind=K_FUNC, ref=("method", attr, base))
+        if base.kind == K_FUNC and attr in ("__name__", "__qualname__", "__module__", "__doc__"):
+            return AV(kind=K_STR, tags=frozenset(["func-name"]))       # some text: two different callables may share it
         return self.unmodelled(fr, node, "attribute %s of %s" % (attr, base.kind))
 
     def ex_Tuple(self, e, fr):
